@@ -30,3 +30,64 @@ package bal_slb
 //@   loop 1 invariant[best_is_seen_argmax] best != nil ==> (exists m int :: 0 <= m && m < c && best == backs[m] && old(eligible(backs[m])) && max == old(backs[m].current)) && (forall k int :: 0 <= k && k < c && old(eligible(backs[k])) ==> old(backs[k].current) <= max)
 //@   loop 1 invariant[visited_eligible_stepped] forall k int :: 0 <= k && k < c && old(eligible(backs[k])) ==> backs[k].current == old(backs[k].current) + backs[k].weight
 //@   loop 1 invariant[rest_untouched] forall k int :: 0 <= k && k < N && (k >= c || !old(eligible(backs[k]))) ==> backs[k].current == old(backs[k].current)
+
+//@ func GetHash
+//@   props C02
+//@   nopanic
+//@   requires base > 0 && base <= 4611686018427387904
+//@   modifies nothing
+//@   ensures[in_range] 0 <= result0 && uint(result0) < base
+//@   ensures[fixed_function_of_the_key] value != nil ==> result0 == int(keyHash(value) % uint64(base))
+
+//@ func (*BalanceRR).Len
+//@   props C02
+//@   nopanic
+//@   requires brr != nil
+//@   modifies nothing
+//@   ensures result0 == len(brr.backends)
+
+//@ func randomBalance
+//@   props C03
+//@   nopanic
+//@   requires len(backs) > 0 && wfList(backs)
+//@   modifies nothing
+//@   ensures[picks_a_list_member] result1 == nil && (exists m int :: 0 <= m && m < len(backs) && result0 == backs[m].backend)
+
+//@ spec lcle(a *BackendRR, b *BackendRR) bool := a.backend.connNum * b.weight <= b.backend.connNum * a.weight
+
+//@ func compLCWeight
+//@   props C04
+//@   nopanic
+//@   requires a != nil && b != nil && a.backend != nil && b.backend != nil
+//@   requires 0 <= a.backend.connNum && a.backend.connNum <= 2147483647 && 0 <= b.backend.connNum && b.backend.connNum <= 2147483647
+//@   requires 0 <= a.weight && a.weight <= 2147483647 && 0 <= b.weight && b.weight <= 2147483647
+//@   note connection counts and weights are assumed below 2^31 so that the cross products do not overflow int
+//@   modifies nothing
+//@   let d := a.backend.connNum * b.weight - b.backend.connNum * a.weight
+//@   ensures[sign_of_cross_multiplied_load] (d > 0 ==> result0 == 1) && (d == 0 ==> result0 == 0) && (d < 0 ==> result0 == -1)
+
+//@ func leastConnsBalance
+//@   props C03,C04
+//@   nopanic
+//@   requires wfList(backs) && bounded(backs)
+//@   requires forall k int :: 0 <= k && k < len(backs) ==> 0 <= backs[k].backend.connNum && backs[k].backend.connNum <= 2147483647 && backs[k].weight <= 2147483647
+//@   modifies nothing
+//@   let N := len(backs)
+//@   ensures[error_only_if_no_eligible_backend] result1 != nil ==> (forall k int :: 0 <= k && k < N ==> !eligible(backs[k]))
+//@   ensures[error_if_no_eligible_backend] (forall k int :: 0 <= k && k < N ==> !eligible(backs[k])) ==> result1 != nil
+//@   ensures[candidates_nonempty] result1 == nil ==> len(result0) >= 1
+//@   ensures[candidates_are_eligible] result1 == nil ==> (forall i int :: 0 <= i && i < len(result0) ==> result0[i] != nil && result0[i].backend != nil && eligible(result0[i]))
+//@   ensures[candidates_are_list_members] result1 == nil ==> (forall i int :: 0 <= i && i < len(result0) ==> (exists m int :: 0 <= m && m < N && result0[i] == backs[m]))
+//@   ensures[every_candidate_minimises_connections_per_weight] result1 == nil ==> (forall i int :: forall k int :: 0 <= i && i < len(result0) && 0 <= k && k < N && eligible(backs[k]) ==> lcle(result0[i], backs[k]))
+//@   let c := rangeindex + 1
+//@   loop 1 invariant[count] 0 <= c && c <= N && len(candidates) == 0 && cap(candidates) == N && base(candidates) != base(backs)
+//@   loop 1 invariant[best_nil_iff_none_seen] best == nil ==> (forall k int :: 0 <= k && k < c ==> !eligible(backs[k]))
+//@   loop 1 invariant[best_is_least_loaded_so_far] best != nil ==> (forall k int :: 0 <= k && k < c && eligible(backs[k]) ==> lcle(best, backs[k]))
+//@   loop 1 invariant[best_is_seen_eligible] best != nil ==> (exists m int :: 0 <= m && m < c && best == backs[m] && eligible(backs[m]))
+//@   loop 2 invariant[count] !allocated(base(candidates)) && off(candidates) == 0 && 0 <= c && c <= N && len(candidates) <= c && cap(candidates) == N && base(candidates) != base(backs) && base(candidates) != nil
+//@   loop 2 invariant[candidates_so_far_eligible] forall i int :: 0 <= i && i < len(candidates) ==> candidates[i] != nil && candidates[i].backend != nil && eligible(candidates[i])
+//@   loop 2 invariant[candidates_so_far_members] forall i int :: 0 <= i && i < len(candidates) ==> (exists m int :: 0 <= m && m < N && candidates[i] == backs[m])
+//@   loop 2 invariant[best_itself_is_collected] (exists m int :: 0 <= m && m < c && best == backs[m]) ==> len(candidates) >= 1
+//@   loop 2 invariant[best_is_least_loaded] forall k int :: 0 <= k && k < N && eligible(backs[k]) ==> lcle(best, backs[k])
+//@   loop 2 invariant[candidates_tie_with_best] forall i int :: 0 <= i && i < len(candidates) ==> lcle(candidates[i], best) && lcle(best, candidates[i])
+//@   loop 2 invariant[best_is_eligible_member] best != nil && (exists m int :: 0 <= m && m < N && best == backs[m] && eligible(backs[m]))
